@@ -69,6 +69,7 @@ let () =
       let line = input_line stdin in
       if String.length line = 0 then ()
       else if line.[0] = '#' then print_endline line
+      else if not (line.[0] >= '0' && line.[0] <= '9') then Printf.printf "# library output: %s\n" line   (* text the library itself printed on stdout *)
       else begin
         match String.split_on_char ' ' line with
         | [fam; cfg; op; args; res] ->
